@@ -273,6 +273,10 @@ func (r *Run) Finish(exhaustive bool) {
 			if (k.Key != "" && k.Key == v.Key) || (k.Match != "" && regexp.MustCompile(k.Match).MatchString(v.Key)) {
 				v.known = true
 				lines = append(lines, fmt.Sprintf("KNOWN-FINDING: property=%s %s [key=%s]", r.ID, k.What, v.Key))
+				if os.Getenv("VERIF_SHOW_KNOWN") != "" {
+					rb, _ := json.Marshal(v.Replay)
+					fmt.Printf("  known-instance key=%s what=%s replay=%s\n", v.Key, oneLine(v.What), rb)
+				}
 				break
 			}
 		}
